@@ -8,6 +8,7 @@ Families: F1 head shapes x call modes (enumerated), F2 bodies, F3 textbook corpu
 published answers asserted in TLC (AnswersAreSLD validates the oracle itself), F4 fresh
 variables per activation, and seeded random programs of the C01 fragment."""
 import itertools
+import os
 import random
 
 from ..core import Check
@@ -244,6 +245,9 @@ def run(tier, seed):
         n = 6000
     chk.machine_family("repository-prolog-files", repo_file_scenarios(), features=features, opts_list=DEC)
     chk.machine_family("scale", gen.scale_scenarios(), features=features, max_steps=6000)
+    # code -> specification: the repository's own tests, every API call recorded, decided by the machine
+    from .. import suite_trace
+    suite_trace.validate(chk, os.environ.get("YLDPROLOG_REPO", "/repo"))
     SG = gen.scale_groups()
     BIG = {"budget_extra": 20000000, "must_complete": True}
     chk.machine_family("scale-arity-zeroargs-chains", SG["arity"] + SG["zero"] + SG["chain"] + SG["calln"], BIG, features=features, max_steps=30000)
